@@ -15,6 +15,11 @@
    freshly generated table and registers it with run.add_obligation-style accounting.
    [C18_table_races_only_among_known] below says what that computed fact means.
 
+   Locations of the table: fields of the owner structs (Configurator, metricLabelsIndex,
+   Configuration, LocalSecretStore, LoadBalancerController, nginx.LocalManager) and
+   "object:<API type>.<field>" for memory inside Kubernetes API objects shared with the informer
+   stores (a write counts unless the object is a fresh copy made in the writing function).
+
    PARTIAL by nature: the theorems are about the lock discipline on struct fields.  Torn reads
    through unsynchronised pointer publication (an object reached from a map entry and mutated
    elsewhere), aliasing the translator cannot see, and orderings created by channels or
